@@ -29,6 +29,68 @@ CHECKS = {
              "family; clock/ids/executor stubs as C01.",
         design="3/C02",
     ),
+    "C03": dict(
+        text="Engine level: delivery schedules (symbolic choice per choice point, decided by z3) on workloads with AND / first-of / "
+             "quorum joins and failing branches; at every task execution the join condition must hold on the durable upstream "
+             "statuses of that instant (audit-trigger sequence numbers). Function level: evaluate_readiness executed "
+             "symbolically over all upstream statuses, join types, thresholds and flags against an independent statement of the property.",
+        note="Bounds: <=3 upstreams, choice depth 6 (quick) / 10 (thorough); OR-join activated-branch bookkeeping across split levels "
+             "and MULTI_MERGE re-firing are outside. Stubs as C01.",
+        design="3/C03",
+    ),
+    "C05": dict(
+        text="Every final state reached by the delivery-schedule exploration (symbolic choices decided by z3, exhaustive to the depth "
+             "bound) is checked with the quiescence predicate; determine_status and _determine_final_status are executed symbolically "
+             "over all status combinations within the size bound.",
+        note="Bounds: workloads of the fixed family, choice depth 6/10, <=3 tasks and <=2 synthetic stages per stage in the function "
+             "lemmas; failPipeline=false (STOPPED) semantics are outside. Stubs as C01.",
+        design="3/C05",
+    ),
+    "C06": dict(
+        text="AFTER UPDATE OF status triggers on the three state tables observe every durable status change in the schedule, crash and "
+             "cancel explorations (control variables symbolic, decided by z3); each change must be in VALID_TRANSITIONS unless written "
+             "while a JumpToStage/RestartStage message is handled. The table itself is checked symbolically over all 144 pairs.",
+        note="Bounds: workloads and depths as C01/C02; two-worker interleavings only where the race harnesses exist. Stubs as C01.",
+        design="3/C06",
+    ),
+    "C10": dict(
+        text="A recovery sweep is injected before every delivery step j (j symbolic, all values), also twice (j<=j2), with and without "
+             "reordering; oracle = run without sweep (same final state, same executions). Crash half: for every crash commit, one sweep "
+             "versus two sweeps in a row give the same final state and executions.",
+        note="Bounds: single worker (a sweep concurrent with a handler is not covered), workloads of the fixed family. Stubs as C01.",
+        design="3/C10",
+    ),
+    "C14": dict(
+        text="A task raising TransientError n times (n symbolic, 0..14, decoded by z3) with/without context_update at task position 1-3; "
+             "oracle: executions = min(n,10)+[n<10], terminal exactly when n>=10, attempt i+1 sees the progress of attempt i; polling "
+             "task keeps its saved context. The retry arithmetic round trip is also checked as a one-step lemma.",
+        note="Bounds: n<=14, <=3 tasks per stage, FIFO + 3 choice points of reordering (thorough). Backoff delays elapse on the virtual clock.",
+        design="3/C14",
+    ),
+    "C15": dict(
+        text="Loop shapes (self loop, 2-4-stage cycle, side branch + fan-in, forward jump) with the requested iteration count symbolic "
+             "(0..13) and max_jumps in {default,0,1,3}: every re-armed stage runs once per iteration, TERMINAL exactly when the budget "
+             "is spent, termination within the step bound; traversal functions executed symbolically on all DAGs with <=5 stages "
+             "against a dominance oracle; ranking-function obligation discharged by z3.",
+        note="Bounds: <=5 stages, iterations <=13, 5 choice points of reordering (thorough). Stubs as C01.",
+        design="3/C15",
+    ),
+    "C17": dict(
+        text="Orchestrator.cancel injected before every delivery step j (symbolic) with up to 6 choice points of reordering (the cancel "
+             "message itself can be overtaken); oracle from the ledger and the audit triggers: no Task.execute after the commit that "
+             "set is_canceled, never-started stages end CANCELED/SKIPPED, every stage and the workflow reach a final status, CANCELED "
+             "unless the work had in effect finished.",
+        note="Reading of 'in effect already finished': every stage complete or RUNNING with all task bodies already returned; a terminal "
+             "failure produced before the cancel may win. Stubs as C01.",
+        design="3/C17",
+    ),
+    "C18": dict(
+        text="Signal (persistent / transient) sent before every delivery step j (symbolic) of the suspend workload, with reordering and "
+             "un-acked redelivery; crash at every commit of the suspend and resume steps. Oracle: executions of the suspending task = "
+             "1 + signals consumed, payload seen = payload sent, transient signal effective iff the stage was durably SUSPENDED when handled.",
+        note="Bounds: one suspending stage, one signal, single worker (two-worker statement interleavings are in the race harness when present).",
+        design="3/C18",
+    ),
 }
 
 NOT_YET = "check not built yet in this round (work in progress); see DESIGN.md section 3 for the planned obligations"
